@@ -110,7 +110,8 @@ pub fn run_job(job: &Job, engine: &dyn Engine) -> JobResult {
             res.digests.push((index, ctx.log.finish()));
         }
         if res.samples.len() < job.samples_wanted && ctx.violations.is_empty() && ctx.evals > 0 && index % 7 == 3 {
-            res.samples.push(trace.clone());
+            // with the schedule / narrowing the engine recorded for this run
+            res.samples.push(engine.narrow(&trace, &ctx));
         }
         if !ctx.violations.is_empty() {
             if let Some(f) = state.as_mut() {
